@@ -140,6 +140,12 @@ def _configs():
                                    ("x",), (), {"thr": 2})
     c["CoDel-cap4"] = ("codel", lambda k: CoDelQueue(target_delay=1.0, interval=1.0, capacity=4, clock_func=k),
                        ("x",), ("tick",), {})
+    # persistent congestion: 5 items are queued at t=0 before the enumerated operations start (pushed through the
+    # real push(), so they are in the reference too).  With target = interval = 1 tick the sequence
+    # tick,pop / tick,pop / tick,pop reaches: sojourn above target -> a whole interval above -> DROPPING state
+    # (first drop) -> the next pop at drop_next = entry + interval/sqrt(1) -> a SECOND drop in the same episode
+    c["CoDel-backlog5"] = ("codel", lambda k: CoDelQueue(target_delay=1.0, interval=1.0, capacity=6, clock_func=k),
+                           ("x",), ("tick",), {"prefill": 5})
     c["RED-1-3-cap3"] = ("red", lambda k: REDQueue(min_threshold=1, max_threshold=3, max_probability=0.5,
                                                   capacity=3, weight=0.5),
                          ("x",), (), {"rand": True})
@@ -206,6 +212,9 @@ class World:
         # fair kinds: set of possible round-robin states ((flow, credits), ...) - see _rr_pop
         self.rr = {()}
         self.sig = ()  # outcome signature of the path: rejections, pop ranks, drops
+        self.nontrivial = False
+        for _ in range(params.get("prefill", 0)):
+            self.apply(("push", _attrs[0]))
         self.nontrivial = False
 
     # -- public-stats accessors (None when the policy has no such statistic) --
